@@ -368,5 +368,22 @@ func (P *Program) runGoTests(files map[string]string, dir string) (map[string]bo
 			res[obl] = true
 		}
 	}
+	// per-test sections, so that each obligation's replay file shows its own run
+	lastGoTestSections = map[string]string{}
+	for tn, obl := range names {
+		start := strings.Index(o, "=== RUN   "+tn+"\n")
+		if start < 0 {
+			continue
+		}
+		end := strings.Index(o[start+1:], "=== RUN   ")
+		sec := o[start:]
+		if end >= 0 {
+			sec = o[start : start+1+end]
+		}
+		lastGoTestSections[obl] = sec
+	}
 	return res, o
 }
+
+// lastGoTestSections: obligation name -> the part of the last go test output that belongs to it.
+var lastGoTestSections = map[string]string{}
